@@ -980,7 +980,7 @@ func checkForceUpgradeTable(c *Ctx, rule string) {
 // in-memory copy.
 func checkStorageVersionWriters(c *Ctx, rule string) {
 	l := c.L
-	c.rule(rule, "the in-memory index label is written only together with the persisted one", 3)
+	c.rule(rule, "the in-memory index label is written only together with the persisted one", 2)
 	fSV := l.Field("", "nodeDB", "storageVersion")
 	setLabel := l.Func("", "*nodeDB.SetFastStorageVersionToBatch")
 	rebuild := l.Func("", "*MutableTree.enableFastStorageAndCommit")
@@ -1016,6 +1016,27 @@ func checkStorageVersionWriters(c *Ctx, rule string) {
 				}
 			})
 			if !ok {
+				// a setter helper: every caller writes the persisted label
+				if edges := l.callersOf(fn); len(edges) > 0 {
+					all := true
+					for _, e := range edges {
+						has := false
+						if e.Caller.Func != nil {
+							allInstrs(e.Caller.Func, func(in ssa.Instruction) {
+								cc := callCommon(in)
+								if cc != nil && cc.IsInvoke() && (cc.Method.Name() == "Set" || cc.Method.Name() == "Delete") && len(cc.Args) >= 1 && roleOf(l, cc.Args[0], "", 0) == labelKey {
+									has = true
+								}
+							})
+						}
+						all = all && has
+					}
+					if all {
+						ok, why = true, "setter helper: every caller writes the persisted label"
+					}
+				}
+			}
+			if !ok {
 				// the reset after a failed rebuild: on the error edge of enableFastStorageAndCommit
 				for _, in := range callsIn(fn, predStatic(rebuild)) {
 					if cl, isCall := in.(*ssa.Call); isCall && instrDominates(cl, st) && !okEdgeDominates(cl, st) {
@@ -1027,7 +1048,7 @@ func checkStorageVersionWriters(c *Ctx, rule string) {
 				"the in-memory index label is changed without the persisted label being written in the same function: memory and storage now disagree on whether an index exists and which version it describes (the rollback's label drop, the rebuild decision and IsFastCacheEnabled read the in-memory copy)")
 		}
 	}
-	if n < 3 {
-		c.anchorMissing(rule, "fewer than 3 writers of nodeDB.storageVersion")
+	if n < 2 {
+		c.anchorMissing(rule, "fewer than 2 writers of nodeDB.storageVersion")
 	}
 }
